@@ -563,7 +563,13 @@ pub fn run_child(ctx: &mut Ctx) {
             let dl_cfg = config.clone(); let tp3 = tp.clone();
             let downloader = tp.external_run_async_task(async move { FileDownloader::new(dl_cfg, tp3).await }).unwrap().unwrap();
             let downloader = Arc::new(downloader);
+            // (a world with more than a hundred files: every file of the current session's first 40, then every 25th; after six
+            // failed downloads of a session the rest is skipped — each failure is already a reported violation)
+            let mut dl_failures = 0usize;
+            let first_new = world_ptrs.len() - done.len();
             for (pi, (ptr, bytes)) in world_ptrs.iter().enumerate() {
+                if world_ptrs.len() > 100 && !(pi >= first_new && pi < first_new + 40) && pi % 25 != 0 { continue; }
+                if dl_failures >= 6 { ctx.stat("downloads_skipped_after_failures"); break; }
                 let out_path = base.join(format!("dl-{pi}"));
                 let _ = std::fs::remove_file(&out_path);
                 let ranges: Vec<Option<(u64, u64)>> = { let l = bytes.len() as u64; let mut v = vec![None]; if l > 0 { let a = rng.below(l); let b = rng.range(a, l); v.push(Some((a, b))); v.push(Some((0, 1))); v.push(Some((l - 1, l))); } v };
@@ -575,8 +581,8 @@ pub fn run_child(ctx: &mut Ctx) {
                     let got = std::fs::read(&out_path).unwrap_or_default();
                     let want: &[u8] = match r { None => &bytes[..], Some((a, b)) => &bytes[a as usize..b as usize] };
                     match res { Ok(n) if got == want && n as usize == want.len() => {}
-                        Ok(n) => ctx.fail("C01", "download-mismatch", format!("download of file {pi} range {r:?} returned {} bytes (reported {n}), expected {}", got.len(), want.len()), replay.clone()),
-                        Err(e) => { ctx.fail("C01", "download-error", format!("download of file {pi} range {r:?} failed: {e}"), replay.clone());
+                        Ok(n) => { dl_failures += 1; ctx.fail("C01", "download-mismatch", format!("download of file {pi} range {r:?} returned {} bytes (reported {n}), expected {}", got.len(), want.len()), replay.clone()); }
+                        Err(e) => { dl_failures += 1; ctx.fail("C01", "download-error", format!("download of file {pi} range {r:?} failed: {e}"), replay.clone());
                                     // every session so far reported success: a file that cannot be reconstructed from the store is also C16's concern
                                     ctx.fail("C16", "success-but-not-reconstructible", format!("all sessions reported success, yet file {pi} cannot be reconstructed from the store: {e}"), replay.clone()); } }
                     ctx.stat("downloads");
